@@ -108,8 +108,10 @@ class Ctx:
              "case": self._case_info, "witness": jsonable(witness)}
         if self.verbose:
             print("  VIOLATED", kind, msg, json.dumps(v["witness"])[:1500], flush=True)
-        # keep at most 8 per (kind) per shard -- enough to classify, bounded output
-        if sum(1 for x in self.violations if x["kind"] == kind) < 8:
+        # keep at most 8 per (kind, mechanism, family) per shard -- enough to classify, bounded output; the mechanism
+        # is part of the key so that listed known findings can never crowd out a different violation of the same kind
+        key = (kind, str((v["witness"] or {}).get("mechanism")), self._family)
+        if sum(1 for x in self.violations if (x["kind"], str((x["witness"] or {}).get("mechanism")), x["family"]) == key) < 8:
             self.violations.append(v)
 
     def exception(self, exc):
